@@ -3,12 +3,12 @@
 # Applies the patch to a scratch worktree of /repo's HEAD (outside /repo and /verif), runs the quick checks of the
 # given properties against it (VERIF_REPO=<worktree>), and restores the worktree. Evidence of /verif is preserved.
 PATCH="$1"; shift
-TREE="${MUTRUN:-/tmp/mutrun/tree}"
+TREE="${MUTRUN:-/tmp/mutrun/tree-$$}"
 HERE="$(cd "$(dirname "$0")/.." && pwd)"
-[ -d "$TREE" ] || git -C /repo worktree add -q --detach "$TREE" HEAD || exit 2
-git -C "$TREE" checkout -q --detach "$(git -C /repo rev-parse HEAD)" && git -C "$TREE" checkout -q -- . || exit 2
+mkdir -p /tmp/mutrun; git -C /repo worktree prune
+git -C /repo worktree add -q --detach "$TREE" HEAD || exit 2
 git -C "$TREE" apply "$PATCH" || { echo "PATCH DOES NOT APPLY"; exit 2; }
-mkdir -p /tmp/mutrun/evsave && cp -a "$HERE/evidence/." /tmp/mutrun/evsave/ 2>/dev/null
+EVS=/tmp/mutrun/evsave-$$; mkdir -p $EVS && cp -a "$HERE/evidence/." $EVS/ 2>/dev/null
 rc=0
 for id in "$@"; do
   out=$(cd "$HERE" && VERIF_REPO="$TREE" VERIF_TIER="${TIER:-quick}" ./check "$id" "${TIER:-quick}" 2>&1)
@@ -17,6 +17,6 @@ for id in "$@"; do
   echo "$out" | grep -E "VIOLATION|lane=|HARNESS|\[$id" | cut -c1-300 | head -8
   [ $code -ne 0 ] && rc=1
 done
-cp -a /tmp/mutrun/evsave/. "$HERE/evidence/" 2>/dev/null
-git -C "$TREE" checkout -q -- .
+cp -a $EVS/. "$HERE/evidence/" 2>/dev/null; rm -rf $EVS
+git -C /repo worktree remove --force "$TREE"
 exit $rc
